@@ -63,8 +63,9 @@ def gen_simulation(rs, n_rows=(24, 60), force_nn_pair=None, absent_arm=False, fo
         victim = arms[-1]
         others = arms[:-1]
         d = [a if a != victim else gen.pick(rs, others) for a in d]
-        pos = 0 if rs.integers(2) else n - 1
-        d[pos] = victim
+        if absent_arm != "never":  # "never": the arm does not occur in the logged data at all
+            pos = 0 if rs.integers(2) else n - 1
+            d[pos] = victim
     r = gen.gen_rewards(rs, n, rk)
     X = gen.gen_contexts(rs, n, nf, hi=5) if contextual else None
     if X is not None:
